@@ -124,7 +124,7 @@ Proof.
 Qed.
 
 (* ---------- the exclusions are necessary: refutations of the unrestricted statements ---------- *)
-Fixpoint wf_weak (ops : list op) : Prop :=      (* [wf] without "no DEL" and without "fresh generation numbers" *)
+Fixpoint wf_weak (ops : list op) : Prop :=      (* [wf] without "fresh generation numbers" *)
   match ops with
   | [] => True
   | OW ts c :: r => ts <> 0 /\ wf_weak r
@@ -132,32 +132,10 @@ Fixpoint wf_weak (ops : list op) : Prop :=      (* [wf] without "no DEL" and wit
   | OC csec chosen :: r => Forall (late (csec - lazy_clean_secs - 1)) (strip r) /\ wf_weak r
   end.
 Definition bg_invisible_full : Prop := forall ops s, Inv s -> wf_weak ops -> run s ops = run s (strip ops).
-Definition expired_like_absent_full : Prop := forall s ts c t k h,
-  Inv s -> ts <> 0 -> hdr_of s t k = Some h -> is_expired Compact h ts = true ->
-  snd (step Compact s ts c) = snd (step Compact (erase s t k) ts c).
 Definition no_resurrection_full : Prop := forall s ts c t k written,
   creates c = Some (t, k, written) -> noe ts s t k ->
   forall sb x, el_get (fst (step Compact s ts c)) t k ts sb = Some x -> In sb written.
 
-Definition w_del_ops : list op :=
-  [OW (1600000000 * ns_per_sec) (CSetEx [1%N] 10 [7%N]); OC 1600200000 [IKV [1%N]]; OW (1600100000 * ns_per_sec) (CDel [[1%N]])].
-Theorem bg_invisible_full_refuted : ~ bg_invisible_full.
-Proof.
-  intros H. specialize (H w_del_ops empty_store Inv_empty).
-  assert (W : wf_weak w_del_ops).
-  { unfold w_del_ops. simpl. repeat split; try (unfold ns_per_sec; lia). repeat constructor. unfold late. apply Z.leb_le. vm_compute. reflexivity. }
-  specialize (H W). vm_compute in H. discriminate H.
-Qed.
-(* DEL counts the expired key that is physically stored *)
-Theorem expired_like_absent_full_refuted : ~ expired_like_absent_full.
-Proof.
-  intros H.
-  set (s := fst (step Compact empty_store (1600000000 * ns_per_sec) (CSetEx [1%N] 10 [7%N]))).
-  specialize (H s (1600100000 * ns_per_sec) (CDel [[1%N]]) TK [1%N] (mkH 1600000010 0)).
-  assert (I : Inv s) by (apply Inv_step; [apply Inv_empty | unfold ns_per_sec; lia]).
-  specialize (H I). vm_compute in H.
-  assert (X : RInt 1 = RInt 0) by (apply H; auto; discriminate). discriminate X.
-Qed.
 (* equal timestamps: the re-created hash shows the member of its cleared predecessor *)
 Theorem no_resurrection_full_refuted : ~ no_resurrection_full.
 Proof.
@@ -176,12 +154,14 @@ Definition w_gen_ops : list op :=
    OC 1600172801 [IElem TH [1%N] T (SB [2%N])];
    OW T (CHSet [1%N] [4%N] [5%N] false); OR (1600172801 * ns_per_sec) TH [1%N]].
 Theorem bg_invisible_needs_fresh_generations :
-  wf_weak w_gen_ops /\ Forall (fun o => match o with OW _ c => is_del c = false | _ => True end) w_gen_ops /\
-  run empty_store w_gen_ops <> run empty_store (strip w_gen_ops).
+  wf_weak w_gen_ops /\ run empty_store w_gen_ops <> run empty_store (strip w_gen_ops).
 Proof.
-  split; [|split].
+  split.
   - unfold w_gen_ops. simpl. repeat split; try (unfold ns_per_sec; lia).
     repeat constructor; unfold late; apply Z.leb_le; vm_compute; reflexivity.
-  - repeat constructor.
   - vm_compute. intros H. discriminate H.
+Qed.
+Theorem bg_invisible_full_refuted : ~ bg_invisible_full.
+Proof.
+  intros H. destruct bg_invisible_needs_fresh_generations as [W N]. apply N. apply H; [apply Inv_empty | exact W].
 Qed.
